@@ -56,6 +56,20 @@ def answer (l : String) : String :=
         | some d => s!"ok {hexB d.algo} {hexB d.checksum} {hexB (digestRepr d)}"
         | none => "err"
       | none => "bad-op"
+  | ["dig2", ha, hb] => match toBytes ha, toBytes hb with
+      | some a, some b =>
+        let sh := fun (t : Bytes) => match digestParse t with
+          | some d => s!"{hexB d.checksum}:{hexB (digestRepr d)}"
+          | none => "err"
+        s!"{sh a} {sh b}"
+      | _, _ => "bad-op"
+  | ["ver-un2", ha, hb] => match toBytes ha, toBytes hb with
+      | some a, some b => match versionUnmarshal Version.zero a with
+        | none => "err1"
+        | some v1 => match versionUnmarshal v1 b with
+          | none => "err2"
+          | some v2 => s!"ok {hexB v1.kind} {showSlots v1.v} {hexB v2.kind} {showSlots v2.v}"
+      | _, _ => "bad-op"
   | ["reset"] => "ok"
   | _ => "bad-op"
 
